@@ -346,7 +346,7 @@ func checkRun(c *core.Ctx, e texp, o *drive.Obs, version bool) bool {
 			}
 			b = nb
 		}
-		adm, un := Admits(lp, BuildNFA(lp, false), e.segs[i], b.Args, b.Opts)
+		adm, un := AdmitsEither(lp, e.segs[i], b.Args, b.Opts)
 		if !adm && !un {
 			c.Violation(fmt.Sprintf("level %s: its variables do not hold a derivation of its own tokens %q: %s", t.Path(), e.segs[i], bindStr(lp, b)), nil, nil)
 			return false
